@@ -13,7 +13,7 @@ use proptest::test_runner::{Config, RngSeed, TestRunner};
 use serde_json::json;
 use std::sync::{Arc, Barrier};
 
-pub const RULE: &str = "generated: a corpus of N requests (valid ones from the completeness generator on both carriers with all options, and defective ones from the C13 catalogue) with their configurations. The OUTCOME of one validation is (Ok | error kind, code, status; returned method, version, URI, headers, body; principal) -- messages are deliberately excluded, divergences in them are only counted. Oracle: outcome digests are equal (i) across 3 repetitions on one thread, (ii) across T in {2,4,8,16} threads released together on a barrier, each validating a different rotation of the corpus concurrently, and 8 threads hammering small groups of similar requests (one form body under ten charset labels, a request and its twins under other options, equally long uploads) for 150 (quick) / 3000 (thorough) rounds, (iii) in freshly spawned processes (fresh hash seeds; launched under differing environments: time zone, locale, RUST_LOG, AWS_* variables, an empty environment) whose 16 threads start COLD, so their first validations race on the lazily initialised global regexes, and (iv) equal to the reference model's verdict where specified. (v) history independence on one thread: a request followed by up to six close relatives (one of 17 ingredients changed -- server region/service/clock/options, secret, token, access key, time, spelling, query, header, body, path, method, requirement; signed anew, or presented with the previous signature), each judged by the reference model; a disagreement that vanishes on a fresh thread is reported as history-dependent. (vi) pairs of different equal-length texts that collide under eleven cheap hash functions (found by birthday search), as path segment, parameter name/value and header value of consecutive requests. Limit: the thread schedule is the OS's, sampled not enumerated. Non-trivial: a request with >= 3 query parameters or >= 3 signed headers or >= 2 prefix-matching unsigned headers; distinct by request digest.";
+pub const RULE: &str = "generated: a corpus of N requests (valid ones from the completeness generator on both carriers with all options, and defective ones from the C13 catalogue) with their configurations. The OUTCOME of one validation is (Ok | error kind, code, status; returned method, version, URI, headers, body; principal) -- messages are deliberately excluded, divergences in them are only counted. Oracle: outcome digests are equal (i) across 3 repetitions on one thread, (ii) across T in {2,4,8,16} threads released together on a barrier, each validating a different rotation of the corpus concurrently, and 8 threads hammering small groups of similar requests (one form body under ten charset labels, a request and its twins under other options, equally long uploads) for 150 (quick) / 3000 (thorough) rounds, (iii) in freshly spawned processes (fresh hash seeds; launched under differing environments: time zone, locale, RUST_LOG, AWS_* variables, an empty environment) which first run a single-threaded prelude (ascending server clocks, each request asked about a clock 0.4 s outside and 0.1 s inside its window, judged by the reference model in the worker) and whose 16 threads then start COLD, so their first validations race on the lazily initialised global regexes, and (iv) equal to the reference model's verdict where specified. (v) history independence on one thread: a request followed by up to six close relatives (one of 17 ingredients changed -- server region/service/clock/options, secret, token, access key, time, spelling, query, header, body, path, method, requirement; signed anew, or presented with the previous signature), each judged by the reference model; a disagreement that vanishes on a fresh thread is reported as history-dependent. (vi) pairs of different equal-length texts that collide under eleven cheap hash functions (found by birthday search), as path segment, parameter name/value and header value of consecutive requests. Limit: the thread schedule is the OS's, sampled not enumerated. Non-trivial: a request with >= 3 query parameters or >= 3 signed headers or >= 2 prefix-matching unsigned headers; distinct by request digest.";
 
 pub fn subs() -> Vec<Box<dyn AnySub>> {
     vec![Box::new(Sub {
@@ -54,7 +54,7 @@ pub fn subs() -> Vec<Box<dyn AnySub>> {
         quick: 12_000,
         thorough: 200_000,
         strat: || {
-            (plan(PlanOpts::default()), proptest::collection::vec((0u8..18, any::<u16>(), any::<bool>()), 1..7))
+            (plan(PlanOpts::default()), proptest::collection::vec((0u8..19, any::<u16>(), any::<bool>()), 1..7))
                 .prop_map(|(plan, steps)| Siblings { plan, steps })
                 .boxed()
         },
@@ -292,6 +292,14 @@ fn vary(p: &Plan, kind: u8, x: u16) -> Option<(Plan, &'static str)> {
             q.cfg.reqs.always.push("X-Newly-Required".into());
             "requirement-added"
         }
+        18 => {
+            // the server clock just inside the window's far edge (the caller asks about a clock just OUTSIDE it first)
+            q.cfg.now = p.instant.add_nanos(if x % 2 == 0 { 899_900_000_000 } else { -899_900_000_000 });
+            if !(2..=9998).contains(&q.cfg.now.year()) {
+                return None;
+            }
+            "server-clock-just-inside-after-just-outside"
+        }
         _ => "repeated",
     };
     Some((q, name))
@@ -329,6 +337,13 @@ pub fn check_siblings(sb: &Siblings, cc: &mut CaseCtx) -> CheckResult {
     for (kind, x, resign) in &sb.steps {
         let Some((np, name)) = vary(&cur_plan, *kind, *x) else { continue };
         let Ok(nb) = np.build() else { continue };
+        if *kind == 18 {
+            // first the same request under a server clock 0.5 s later / earlier, which puts it just outside the window
+            let mut outside = nb.case.clone();
+            outside.cfg.now = np.cfg.now.add_nanos(if x % 2 == 0 { 500_000_000 } else { -500_000_000 });
+            judge(&outside, "server-clock-just-outside", trail.last().unwrap())?;
+            trail.push("server-clock-just-outside".into());
+        }
         let mut case = nb.case.clone();
         let label = if *resign {
             format!("{}-signed-anew", name)
@@ -611,7 +626,35 @@ fn concurrent(c: &Arc<Vec<Case>>, threads: usize) -> Vec<Vec<(u64, u64)>> {
 }
 
 /// worker: `verif __c18worker <seed> <n> <threads>` -- cold start, threads race on first use; prints one digest line
+/// What a process does FIRST, single-threaded, before anything else has been validated in it: ascending server clocks, each
+/// request asked about a clock just outside its window and then about one just inside (and the other way round). State
+/// that only ever moves forward in a process (a high-water mark of the clock, a first-use initialisation) is fresh here and
+/// nowhere else. Returns the number of answers that differ from the reference model's.
+pub fn prelude() -> usize {
+    let mut wrong = 0;
+    for k in 0..12i64 {
+        let mut p = simple_plan(if k % 2 == 0 { crate::model::verify::Carrier::Header } else { crate::model::verify::Carrier::Query });
+        let t = crate::model::time::Instant::from_civil(2001, 1, 1 + k as u32, 12, 0, 0, 0);
+        p = p.with_time(t, crate::model::time::TsStyle::BASIC_Z);
+        let Ok(b) = p.build() else { continue };
+        let edge: i128 = if k % 4 < 2 { 900_000_000_000 } else { -900_000_000_000 };
+        let sign: i128 = if edge > 0 { 1 } else { -1 };
+        // (offset from the window's edge in ns: positive = outside)
+        let order: [i128; 4] = if k % 3 == 0 { [400_000_000, -100_000_000, 0, 900_000_000] } else { [-100_000_000, 400_000_000, -600_000_000, 1] };
+        for d in order {
+            let mut c = b.case.clone();
+            c.cfg.now = t.add_nanos(edge + sign * d);
+            let (a, o) = (analyze(&c), exec::run(&c));
+            if check_against_model(&a, &o).is_err() {
+                wrong += 1;
+            }
+        }
+    }
+    wrong
+}
+
 pub fn worker(seed: u64, n: usize, threads: usize) {
+    let wrong = prelude();
     let c = Arc::new(corpus(seed, n));
     let per_thread = concurrent(&c, threads);
     let mut all_equal = true;
@@ -628,7 +671,7 @@ pub fn worker(seed: u64, n: usize, threads: usize) {
     for d in &per_thread[0] {
         macc.extend_from_slice(&d.1.to_le_bytes());
     }
-    println!("{:016x} {} {:016x}", crate::model::crypto::fnv64(&acc), if all_equal { "threads-agree" } else { "THREADS-DISAGREE" }, crate::model::crypto::fnv64(&macc));
+    println!("{:016x} {} {:016x} {}", crate::model::crypto::fnv64(&acc), if all_equal { "threads-agree" } else { "THREADS-DISAGREE" }, crate::model::crypto::fnv64(&macc), if wrong == 0 { "prelude-ok".to_string() } else { format!("PRELUDE-WRONG:{}", wrong) });
 }
 
 pub fn extra(ctx: &Ctx) {
@@ -849,11 +892,12 @@ fn collect(
         Ok(o) => {
             let s = String::from_utf8_lossy(&o.stdout).trim().to_string();
             let f: Vec<&str> = s.split(' ').collect();
-            if f.len() != 3 {
+            if f.len() != 4 {
                 ctx.inconclusive.lock().unwrap().push(format!("worker process printed {:?}", s));
                 return;
             }
-            if f[0] != want {
+            // the first validations of a fresh process, judged by the reference model inside the worker
+            if f[0] != want || f[3] != "prelude-ok" {
                 *differing += 1;
             }
             if f[1] != "threads-agree" {
